@@ -113,6 +113,24 @@ CHECKS["C13"] = dict(
     note="Trusted: executor + models, z3. Process-level variation (environment, colour settings, separate launches) is outside the encoding.",
     ref="DESIGN.md 4 (C13)")
 
+CHECKS["C09"] = dict(
+    text="Bounded symbolic verification of the tokenizer: tokenizer::tokenize (both passes) is executed by path forking on every text of up to 3 (quick) / 4 "
+         "(thorough) characters whose code points are symbolic over all of ASCII plus 12 non-ASCII representatives (2/3/4-byte letters, a non-ASCII digit, "
+         "multi-byte blanks, combining marks, an illegal symbol, an emoji); byte offsets are symbolic sums of UTF-8 widths. Oracle: an independent maximal-munch "
+         "lexer whose line-break rule is computed from grammar.y. z3 decides on each path: same token kinds, byte ranges, lexemes and literal values as the "
+         "reference; ranges increasing, non-empty, within the text; on rejection exactly one error per unexpected grapheme with that grapheme's range. Two "
+         "defects found this way were repaired (fix: b485fec, 624d172).",
+    note="Trusted: executor + library models; char predicates/UTF-8 widths of the representatives and the grapheme-break rule are read from and validated "
+         "against the compiled std/unicode-segmentation on every run; z3. Longer texts and other code points are outside the claim.",
+    ref="DESIGN.md 4 (C09)")
+CHECKS["C10"] = dict(
+    text="Relational symbolic verification of layout insensitivity: tokenize is executed on pairs of related symbolic texts (shared symbolic characters) and z3 "
+         "decides that the token streams agree: deleting a comment up to its line break (empty, multi-byte-ending, at end of file); inserting a blank (space, tab, "
+         "CR, U+00A0) anywhere outside a token; doubling/tripling a line break; replacing a separating line break by `;`; and, for all 28x28 pairs of token kinds "
+         "with two kinds of gap, that a line break yields a terminator iff LAST/FIRST of `term` in grammar.y say so (`;` counting as both, infix MINUS continuing).",
+    note="Trusted: as C09. The parser's equal treatment of the two terminator kinds is not part of this encoding.",
+    ref="DESIGN.md 4 (C10)")
+
 NOT_APPLICABLE = {
     "C16": "printer round trip needs the packrat parser on 10-25 tokens; symbolic execution of the parser does not reach that (DESIGN.md section 6)",
     "C17": "asymptotic running time over n in the thousands is not observable by bounded symbolic execution (DESIGN.md section 6)",
